@@ -21,7 +21,7 @@ ASSUMPTIONS = [
     "real-valued parameters on the finite catalogue + VERIF_SEED-indexed generic reals (cond<=1e3) only; D,Dx,Dy<=3, Dk<=3",
     "feature models: quadrature value trusted only when two composite Gauss-Legendre resolutions agree to 1e-10*scale (else the case is excluded and counted); kernel length scales >= 0.5, |W| <= 1",
 ]
-BOUNDS = {"quick": dict(D=[1, 2, 3], R=[1, 2, 3]), "thorough": dict(D=[1, 2, 3, 4], R=[1, 2, 3, 4])}
+BOUNDS = {"quick": dict(D=[1, 2, 3], R=[1, 2, 3]), "thorough": dict(D=[1, 2, 3, 4, 5], R=[1, 2, 3, 4, 5])}
 BUDGET = {"quick": 600, "thorough": 3600}
 
 FK = ["ConjugateFactor", "OneRankFactor", "LinearFactor", "ConstantFactor", "GaussianMeasure", "GaussianPDF"]
@@ -71,7 +71,7 @@ def meas(kind, D, R, vi, seed, tag):
 def run_logfactor(shard, ctx):
     tier, seed = shard["tier"], shard["seed"]
     fk, D = shard["fk"], shard["D"]
-    vis = [0, 1, 100] if tier == "quick" else [0, 1, 2, 100, 101]
+    vis = [0, 1, 100] if tier == "quick" else [0, 1, 2, 100, 101, 102, 103, 104, 105]
     for mk in MK:
         for R in (BOUNDS[tier]["R"] if not shard.get("large") else [5]):
             for Rf in sorted({1, R}):
@@ -106,7 +106,7 @@ def exp_log_cond(M, b, Sy, mq, Sq, Dy):
 def run_cond(shard, ctx):
     tier, seed = shard["tier"], shard["seed"]
     kind, Dx, Dy = shard["kind"], shard["Dx"], shard["Dy"]
-    vis = [0, 1, 100] if tier == "quick" else [0, 1, 2, 100, 101]
+    vis = [0, 1, 100] if tier == "quick" else [0, 1, 2, 100, 101, 102, 103, 104, 105]
     from . import _affine
 
     for vi, ctor in [(v, c) for v in vis for c in _affine.ctors_for(kind)]:
@@ -173,7 +173,7 @@ def run_feature(shard, ctx):
     tier, seed = shard["tier"], shard["seed"]
     kind, Dx, Dy, Dk = shard["kind"], shard["Dx"], shard["Dy"], shard["Dk"]
     ns = (8, 12) if Dx == 1 else (7, 10)
-    vis = [0, 100] if tier == "quick" else [0, 1, 100, 101]
+    vis = [0, 100] if tier == "quick" else [0, 1, 100, 101, 102, 103, 104, 105]
     for vi in vis:
         for Rq, prep in ((1, "fresh"), (2, "fresh"), (1, "updated")):
             if not ctx.case(dict(vi=vi, Rq=Rq, prep=prep)):
